@@ -300,6 +300,36 @@ func (i *Interp) killAll() {
 	cs.wg.Wait()
 }
 
+// afterKill (G0, after a killSignal was caught by zz.Try): the goroutines of the killed
+// invocation are unwound and forgotten, the locks they held are released (the next invocation
+// is a new process), and the path continues in G0.
+func (i *Interp) afterKill() {
+	cs := i.cs
+	cs.abort = true
+	for _, g := range cs.gs[1:] {
+		if !g.done {
+			g.done = true
+			select {
+			case g.resume <- struct{}{}:
+			default:
+			}
+		}
+	}
+	cs.wg.Wait()
+	cs.abort = false
+	cs.fatal = nil
+	cs.cur = cs.gs[0]
+	cs.gs[0].enabled = nil
+	cs.sleep = map[int]pendingOp{}
+	cs.mutexes = map[*value]*mutexState{}
+	cs.rws = nil
+	cs.wgs = map[*value]*wgState{}
+	select { // a wake-up sent to G0 that it did not consume
+	case <-cs.gs[0].resume:
+	default:
+	}
+}
+
 func (i *Interp) spawn(fn value, args []value) {
 	cs := i.cs
 	g := &G{id: len(cs.gs), resume: make(chan struct{}, 1), what: "start"}
